@@ -486,6 +486,48 @@ Proof.
               split; [eapply ext_trans; eauto|]. split; [eapply samep_trans; eauto|]. exact R.
 Qed.
 
+Lemma open_reload_ok : forall attempts lg,
+  lk lg = false ->
+  ok lg (open_reload attempts)
+     (fun lg' res => ext lg lg' /\ samep lg lg' /\
+        match res with Some m => incl m (kn lg') /\ incl (mnames m) (sn lg') | None => True end).
+Proof.
+  induction attempts as [|a IH]; intros lg Hlk; cbn [open_reload].
+  - cbn. split; [apply ext_refl|]. split; [apply samep_refl|exact I].
+  - apply ok_op; [exact I|]. intros rs Hp.
+    change (match rs with SNames (Some l) => l | _ => [] end) with (lnames rs).
+    set (lg1 := nxt lg QReadList rs).
+    assert (E1 : ext lg lg1).
+    { unfold ext, lg1. cbn. repeat split; try apply incl_refl; intros x Hx; apply in_or_app; right; exact Hx. }
+    assert (S1 : samep lg lg1).
+    { unfold samep, lg1. cbn. rewrite Hlk. repeat split. }
+    eapply ok_bind.
+    + apply open_all_ok with (lg := lg1).
+      * intros x [].
+      * unfold lg1. cbn. intros x Hx. apply in_or_app. left. exact Hx.
+      * intros x [].
+      * intros x [].
+    + cbn beta. intros lg2 o (E2 & S2 & Ho).
+      destruct o as [m|].
+      * cbn [ok]. split; [eapply ext_trans; eauto|]. split; [eapply samep_trans; eauto|]. exact Ho.
+      * apply ok_op; [exact I|]. intros rs2 Hp2.
+        change (match rs2 with SNames (Some l) => l | _ => [] end) with (lnames rs2).
+        set (lg3 := nxt lg2 QReadList rs2).
+        assert (E3 : ext lg2 lg3).
+        { unfold ext, lg3. cbn. repeat split; try apply incl_refl; intros x Hx; apply in_or_app; right; exact Hx. }
+        assert (S3 : samep lg2 lg3).
+        { unfold samep, lg3. cbn. destruct S2 as (L2 & _). destruct S1 as (L1 & _).
+          rewrite L2, L1, Hlk. repeat split. }
+        assert (E : ext lg lg3) by (eapply ext_trans; [|eauto]; eapply ext_trans; eauto).
+        assert (S : samep lg lg3) by (eapply samep_trans; [|eauto]; eapply samep_trans; eauto).
+        destruct (names_eqb (lnames rs2) (lnames rs)).
+        -- cbn [ok]. split; [exact E|]. split; [exact S|exact I].
+        -- eapply ok_conseq.
+           ++ apply IH. destruct S as (L & _). rewrite L. exact Hlk.
+           ++ cbn beta. intros lg4 res (E4 & S4 & R).
+              split; [eapply ext_trans; eauto|]. split; [eapply samep_trans; eauto|]. exact R.
+Qed.
+
 (* ---------------- close ---------------- *)
 
 Lemma close_ok : forall m lg, incl (mnames m) (sn lg) ->
@@ -735,9 +777,10 @@ Proof.
   destruct o; try discriminate Hmod; cbn [call_prog].
   - (* Open *)
     unfold wrap. eapply ok_bind.
-    + apply reload_ok with (lg := lg_init AOpen m); [reflexivity|intros x []|intros x []].
-    + cbn beta. intros lg' rl (_ & S & R1 & R2 & R3). rewrite R3. cbn [ok]. split; [|split; reflexivity].
-      cbn [fst]. intros mm E. inversion E; subst. split; assumption.
+    + apply open_reload_ok with (lg := lg_init AOpen m). reflexivity.
+    + cbn beta. intros lg' [mm|] (_ & S & R); cbn [ok]; (split; [|split; reflexivity]).
+      * cbn [fst]. intros mm' E. inversion E; subst. exact R.
+      * cbn [fst]. intros mm' E. discriminate E.
   - (* Add *)
     destruct m as [mm|]; [|apply Hnone; reflexivity].
     destruct (Hinc mm eq_refl) as [I1 I2].
